@@ -218,6 +218,19 @@ Theorem in_range_advert_is_fetched : forall D n h keys k t,
   (kt_mem (k, t) (inflight n) = true \/ In (Fetch (self n) h k) (snd (on_replicate D n h keys))).
 Proof. exact in_range_is_fetched. Qed.
 
+(* the irrelevant-record clean-up removes stored records only: it leaves the fetcher (range, in-flight set)
+   alone, so afterwards every advertised unheld key within the fetch range is still taken up -- however far
+   it is from the records that remain *)
+Theorem cleanup_does_not_narrow_fetching : forall D n h keys k t,
+  (fetch_range (cleanup D n) = fetch_range n /\ store_range (cleanup D n) = store_range n /\
+   inflight (cleanup D n) = inflight n) /\
+  (accepts_holder n h = true -> In (k, t) keys -> lookup k (held n) = None -> in_range D n k = true ->
+   kt_mem (k, t) (inflight (fst (on_replicate D (cleanup D n) h keys))) = true).
+Proof.
+  intros D n h keys k t. split; [|apply after_cleanup_in_range_is_fetched].
+  destruct (cleanup_keeps_fetcher D n) as (A & B & C & _). auto.
+Qed.
+
 (* (iii) from a list that does not have exactly one new key, nothing beyond the fetcher's range is fetched
    or put in flight (the single-new-key list is C08's known class F15: regrow_example shows it) *)
 Theorem out_of_range_not_fetched : forall D n h keys,
